@@ -92,6 +92,40 @@ def geodetic_case():
                      "ellipsoid normal (cos lat cos lon, cos lat sin lon, sin lat), and the station is at rest (zero velocity)")
 
 
+def station_int_case():
+    """create_station given latitude, longitude (degrees) and altitude as Python *integers* -- (45, 3, 100) is as legitimate as
+    (45.0, 3.0, 100.0): the station is where the ellipsoid formula puts it.  The symbolic integers are int subclasses, so that
+    whatever the code does to a sequence of ints (numpy would infer an integer dtype) is followed."""
+    from symx.dtmodel import SI
+    ins = [("Re", "pos"), ("ee", "pos"), ("lat_i", "int"), ("lon_i", "int"), ("alt_i", "int")]
+
+    def pre(v):
+        return [v["ee"] < 1, v["lat_i"] > -90, v["lat_i"] < 90, v["lon_i"] >= -180, v["lon_i"] <= 180, v["alt_i"] >= -400, v["alt_i"] <= 9000]
+
+    def run(env, v):
+        st = patch_earth(env, v)
+        name = f"vfi{next(_counter)}"
+        if env.symbolic:
+            sta = st.create_station(name, (SI(v["lat_i"]), SI(v["lon_i"]), SI(v["alt_i"])))
+            off = sta.center.offset
+            return {"position": [getattr(x, "r", x) for x in list(off)[:3]]}
+        sta = st.create_station(name, (int(v["lat_i"]), int(v["lon_i"]), int(v["alt_i"])))
+        return {"position": [float(x) / 6.4e6 for x in list(sta.center.offset)[:3]]}
+
+    def ref(env, v, out):
+        a, e = ell(env, v)
+        lat, lon, alt = v["lat_i"] * env.pi / 180, v["lon_i"] * env.pi / 180, v["alt_i"]
+        if not env.symbolic:
+            lat, lon = math.radians(int(v["lat_i"])), math.radians(int(v["lon_i"]))
+        N = a / env.sqrt(1 - e * e * env.sin(lat) * env.sin(lat))
+        p = [(N + alt) * env.cos(lat) * env.cos(lon), (N + alt) * env.cos(lat) * env.sin(lon), (N * (1 - e * e) + alt) * env.sin(lat)]
+        return {"position": p if env.symbolic else [x / 6.4e6 for x in p]}
+    return Case("station_int", ins, run, ref, pre=pre, timeout=90, maxpaths=200, tol=1e-9, abs_tol=1e-9,
+                extra_points=[{"lat_i": 45, "lon_i": 3, "alt_i": 100}, {"lat_i": -33, "lon_i": -71, "alt_i": 2400}],
+                desc="create_station with integer latitude / longitude / altitude: position on the ellipsoid as for the same values "
+                     "given as floats")
+
+
 def mk_station(env, v, mask=None):
     """real create_station (degrees in, as the public API demands)"""
     st = patch_earth(env, v)
@@ -270,7 +304,7 @@ def measures_case(n, closed):
 
 
 def all_cases(tier):
-    cs = [geodetic_case(), orient_case(), topo_case()]
+    cs = [geodetic_case(), orient_case(), topo_case(), station_int_case()]
     for n in range(2, 6 if tier == "quick" else 8):
         cs.append(measures_case(n, False))
         if n > 2:
